@@ -5,9 +5,15 @@
 //   to_string    fn=i32|u32|i64|u64|ill|ull cap= v=   etl::to_string<cap> | std::to_string
 //   from_chars   ty= s=[..] base=             etl::from_chars          | std::from_chars
 //   to_integer   ty= s=[..] base= ws=0|1      strings::to_integer      | (skip blanks) std::from_chars
+//                base=0 (auto-detection, an extension of to_integer that from_chars passes on): the reference is glibc's
+//                strtoll / strtoull with base 0 on a NUL-terminated copy, restricted to to_integer's grammar (no '+', '-'
+//                only for signed types, white space only with ws=1) and range-checked against the type (`ref_base0`)
 //   to_integer_nc ty= s=[..] base= ws=0|1     the same with check_overflow = false; the reference prints `*` when
 //                                             the value is not representable (outside the option's contract)
-//   cstr         fn=strtol|strtoll|strtoul|strtoull|atoi|atol|atoll s=[..] base=   | glibc
+//   cstr         fn=strtol|strtoll|strtoul|strtoull|atoi|atol|atoll s=[..] base=   | glibc     (value,end)
+//   cstr_erange  fn=strtol|strtoll|strtoul|strtoull s=[..] base=   `*` | glibc's errno == ERANGE: tetl is freestanding and
+//                has no errno, so there is nothing to compare on the implementation side; the line validates the
+//                `erange` flag of the Lean spec (which masks ato* and tells where std::sto* throw)
 //   sto          fn=stoi|stol|stoll|stoul|stoull s=[..] base=                        | libstdc++
 //   round_trip   ty= v= base=                 to_chars then from_chars | same with std
 //   to_chars_all ty= v=                       bases 2..36: exact fit, one byte less, round trip
@@ -158,6 +164,49 @@ auto op_from_integer(Line const& l) -> std::string
     return l.i("term") != 0 ? op_from_integer_t<T, true>(l) : op_from_integer_t<T, false>(l);
 }
 
+auto c_isspace(char c) -> bool { return c == ' ' or (c >= '\t' and c <= '\r'); }
+
+// reference for base 0: glibc on a NUL-terminated copy (a NUL inside the view ends the number for to_integer as well:
+// it is neither white space, sign nor digit).  cls: 0 = value, 1 = no conversion, 2 = not representable in T.
+template <typename T>
+struct ref0 {
+    int cls{1};
+    T value{};
+    std::ptrdiff_t n{0};
+};
+
+template <typename T>
+auto ref_base0(char const* data, std::size_t size, bool ws) -> ref0<T>
+{
+    using R = ref_t<T>;
+    std::string z(data, size);
+    char const* p = z.c_str();
+    std::size_t k = 0;
+    if (ws) {
+        while (k < size and c_isspace(p[k])) ++k;
+    }
+    // what to_integer's grammar does not have: white space (unless skipped), '+', '-' for unsigned types
+    if (k == size or c_isspace(p[k]) or p[k] == '+' or (p[k] == '-' and not std::is_signed_v<R>)) return {};
+    char* end = nullptr;
+    errno     = 0;
+    if constexpr (std::is_signed_v<R>) {
+        long long v = std::strtoll(p + k, &end, 0);
+        if (end == p + k) return {};
+        auto n = end - p;
+        if (errno == ERANGE or v < static_cast<long long>(std::numeric_limits<R>::min())
+            or v > static_cast<long long>(std::numeric_limits<R>::max())) {
+            return {2, T{}, n};
+        }
+        return {0, static_cast<T>(v), n};
+    } else {
+        unsigned long long v = std::strtoull(p + k, &end, 0);
+        if (end == p + k) return {};
+        auto n = end - p;
+        if (errno == ERANGE or v > static_cast<unsigned long long>(std::numeric_limits<R>::max())) return {2, T{}, n};
+        return {0, static_cast<T>(v), n};
+    }
+}
+
 template <typename T>
 auto fmt_fc(std::string const& cls, T v, std::ptrdiff_t n) -> std::string
 {
@@ -171,14 +220,17 @@ auto op_from_chars(Line const& l) -> std::string
     auto const base = static_cast<int>(l.i("base"));
     T v             = T(77);
     auto r          = etl::from_chars(sb.p, sb.p + sb.n, v, base);
+    auto cls_e      = r.ec == etl::errc{} ? "ok" : r.ec == etl::errc::invalid_argument ? "invalid" : r.ec == etl::errc::result_out_of_range ? "range" : "ec?";
+    if (base == 0) {
+        auto q = ref_base0<T>(sb.p, sb.n, false);
+        return out(fmt_fc<T>(cls_e, v, r.ptr - sb.p),
+                   fmt_fc<T>(q.cls == 0 ? "ok" : q.cls == 1 ? "invalid" : "range", q.cls == 0 ? q.value : T(77), q.n));
+    }
     auto w          = ref_t<T>(77);
     auto q          = std::from_chars(sb.p, sb.p + sb.n, w, base);
-    auto cls_e      = r.ec == etl::errc{} ? "ok" : r.ec == etl::errc::invalid_argument ? "invalid" : r.ec == etl::errc::result_out_of_range ? "range" : "ec?";
     auto cls_s      = q.ec == std::errc{} ? "ok" : q.ec == std::errc::invalid_argument ? "invalid" : "range";
     return out(fmt_fc<T>(cls_e, v, r.ptr - sb.p), fmt_fc<ref_t<T>>(cls_s, w, q.ptr - sb.p));
 }
-
-auto c_isspace(char c) -> bool { return c == ' ' or (c >= '\t' and c <= '\r'); }
 
 template <typename T, bool Ws, bool Check = true>
 auto op_to_integer_t(Line const& l) -> std::string
@@ -194,6 +246,13 @@ auto op_to_integer_t(Line const& l) -> std::string
         e = "invalid(" + std::to_string(r.end - sb.p) + ")";
     } else {
         e = "overflow";
+    }
+    if (base == 0) {
+        auto q = ref_base0<T>(sb.p, sb.n, Ws);
+        std::string s0 = q.cls == 0 ? "none(" + num(q.value) + "," + std::to_string(q.n) + ")"
+                       : q.cls == 1 ? std::string("invalid(0)")
+                                    : std::string(Check ? "overflow" : "*");
+        return out(e, s0);
     }
     std::size_t k = 0;
     if (Ws) {
@@ -337,14 +396,25 @@ auto strto(Line const& l, FE fe, FS fs) -> std::string
     cstr c(l.list("s"));
     auto const base  = static_cast<int>(l.i("base"));
     char const* eend = nullptr;
-    errno            = 0;
     R ve             = fe(static_cast<char const*>(c.b.p), &eend, base);
-    auto e           = num(ve) + "," + std::to_string(eend - c.b.p) + "," + (errno == ERANGE ? "1" : "0");
+    // the end pointer is optional: the same call with last == nullptr must return the same value
+    R ve0            = fe(static_cast<char const*>(c.b.p), static_cast<char const**>(nullptr), base);
+    auto e           = num(ve) + "," + std::to_string(eend - c.b.p) + (ve0 == ve ? "" : "!null=" + num(ve0));
     char* send       = nullptr;
-    errno            = 0;
     R vs             = fs(c.b.p, &send, base);
-    auto s           = num(vs) + "," + std::to_string(send - c.b.p) + "," + (errno == ERANGE ? "1" : "0");
+    auto s           = num(vs) + "," + std::to_string(send - c.b.p);
     return out(e, s);
+}
+
+template <typename R, typename FS>
+auto strto_erange(Line const& l, FS fs) -> std::string
+{
+    cstr c(l.list("s"));
+    auto const base = static_cast<int>(l.i("base"));
+    char* send      = nullptr;
+    errno           = 0;
+    (void)fs(c.b.p, &send, base);
+    return out("*", errno == ERANGE ? "1" : "0");
 }
 
 template <typename R, typename FE, typename FS>
@@ -435,6 +505,12 @@ auto step(Line const& l) -> std::string
         if (fn == "atoi") return ato<int>(l, [](char const* p) { return etl::atoi(p); }, [](char const* p) { return std::atoi(p); });
         if (fn == "atol") return ato<long>(l, [](char const* p) { return etl::atol(p); }, [](char const* p) { return std::atol(p); });
         if (fn == "atoll") return ato<long long>(l, [](char const* p) { return etl::atoll(p); }, [](char const* p) { return std::atoll(p); });
+    }
+    if (l.op == "cstr_erange") {
+        if (fn == "strtol") return strto_erange<long>(l, [](auto... a) { return std::strtol(a...); });
+        if (fn == "strtoll") return strto_erange<long long>(l, [](auto... a) { return std::strtoll(a...); });
+        if (fn == "strtoul") return strto_erange<unsigned long>(l, [](auto... a) { return std::strtoul(a...); });
+        if (fn == "strtoull") return strto_erange<unsigned long long>(l, [](auto... a) { return std::strtoull(a...); });
     }
     if (l.op == "sto") {
         if (fn == "stoi") return sto<int>(l, [](auto... a) { return etl::stoi(a...); }, [](auto... a) { return std::stoi(a...); });
